@@ -928,6 +928,9 @@ class C03(Prop):
         op = rng.choice(["add", "sub", "mul", "div", "mod", "band", "bor", "bxor", "lsh", "rsh"])
         if op in ("lsh", "rsh"):
             a, b = I(pick_int(rng)), I(rng.choice([0, 1, 5, 31, 32, 63]))
+        elif op in ("band", "bor", "bxor", "mod"):
+            # array intersection (`&` on arrays) is outside the covered core (notes/C03.md)
+            a, b = pick_scalar(rng), pick_scalar(rng)
         else:
             a = pick_scalar(rng) if rng.chance(4, 5) else rng.choice([small_arr(rng), Map([(I(1), I(2))]), Buf([65, 66])])
             b = pick_scalar(rng) if rng.chance(4, 5) else rng.choice([small_arr(rng), Map([(I(1), I(3)), (I(4), I(5))]), Buf([67])])
